@@ -19,7 +19,7 @@ Definition is_scope_err {A} (o : outcome A) : bool :=
 
 Definition check_case (i : N) (c : program * list (name * value) * cobs) : list (N * N * N) :=
   let '(p, params, o) := c in
-  match chk_program true 400 p with
+  match chk_program true true 400 p with
   | COk =>
       let r := fst (run_body 400 p (init_world params false None)) in
       (if is_scope_err r then [(5%N, i, 0%N)] else []) ++
